@@ -1116,6 +1116,15 @@ void execute_assignment(StatementExecutor *executor, Interpreter &interpreter,
         // は不可)
         AssignmentHelpers::check_const_pointer_reassignment(target_var);
 
+        // const T* の値（変数・仮引数・関数の戻り値）を T* の変数に代入する
+        // のは禁止: q = p; q = getp();
+        if (target_var && target_var->type == TYPE_POINTER &&
+            !target_var->is_function_pointer) {
+            AssignmentHelpers::check_pointer_const_conversion(
+                interpreter, node->right.get(), target_var->is_pointee_const,
+                "variable '" + target_name + "'");
+        }
+
         // Interface型変数（ポインタを除く）への代入処理
         if (target_var &&
             (target_var->type == TYPE_INTERFACE ||
